@@ -80,6 +80,7 @@ class Sidecars:
         self.loops: Dict[Tuple[str, int], LoopAst] = {}
         self.attr_sorts: Dict[str, str] = {}
         self.specs: Dict[str, ast.FunctionDef] = {}
+        self.specs_rec: Dict[str, ast.FunctionDef] = {}
         self.sources: Dict[str, str] = {}
         for fn in sorted(os.listdir(self.dir)):
             if fn.endswith(".py") and not fn.startswith("_"):
@@ -104,6 +105,8 @@ class Sidecars:
             elif isinstance(node, ast.FunctionDef):
                 if any(isinstance(d, ast.Name) and d.id == "spec" for d in node.decorator_list):
                     self.specs[node.name] = node
+                if any(isinstance(d, ast.Name) and d.id == "specrec" for d in node.decorator_list):
+                    self.specs_rec[node.name] = node
                 for d in node.decorator_list:
                     if isinstance(d, ast.Call) and isinstance(d.func, ast.Name) and d.func.id == "loop":
                         key = self._const(d.args[0])
